@@ -109,6 +109,7 @@ func init() {
 		Runs: []RunDef{
 			{Fn: "H_alias", Tier: "quick", Reach: []string{"end"}},
 			{Fn: "H_reference", Tier: "quick", Reach: []string{"end"}},
+			{Fn: "H_callee_writes", Fuel: 30_000_000, Tier: "quick", Reach: []string{"end"}},
 		},
 		Rule:        rule + "; (shape: list / string-keyed / nested / nested with an empty inner list / list with a string key added later) x (13 aliasing routes: assignment, by-value parameter, return, into/out of a property, into/out of an element by literal, append, string key and int key, getter method / function / static method returning a stored array) x (12 mutations) x (2 directions) enumerated by solver-driven case split, element values and the written value are symbolic 64-bit ints; oracle = before/after snapshot of the other name inside the same run",
 		Assumptions: []string{"sort() cells use a concrete element pool (elements are compared through their string form)"},
@@ -208,6 +209,7 @@ func init() {
 			{Fn: "H_ordered_map", Params: k(5), Tier: "thorough", Reach: []string{"end"}, NativeRepeat: 300},
 			{Fn: "H_pairs", Fuel: 30_000_000, Tier: "quick", Reach: []string{"end"}},
 			{Fn: "H_include", Fuel: 30_000_000, Tier: "quick", Reach: []string{"end"}},
+			{Fn: "H_enum_order", Fuel: 30_000_000, Tier: "quick", Reach: []string{"end"}},
 		},
 		Rule:        rule + "; Go's map iteration order is the adversary and is made a symbolic choice: every range over a Go map with 2..3 entries executed inside origami code (up to 4 such ranges per path) takes its order from a fresh symbolic permutation, all orders are explored as sibling paths, and the output must equal the insertion-order run of the same template in the same path; OrderedMap Set/Delete histories against a slice model; all ordered pairs (A then B vs B alone) of the templates on fresh VMs in one engine process",
 		Assumptions: []string{"maps with more than 3 entries and the 5th and later permutable ranges of a path iterate in insertion order"},
@@ -257,6 +259,7 @@ func init() {
 		Pkg: "verif/harness/c11",
 		Runs: []RunDef{
 			{Fn: "H_alone", Fuel: 30_000_000, Tier: "quick", Reach: []string{"end"}},
+			{Fn: "H_sequential", Fuel: 30_000_000, Tier: "quick", Reach: []string{"end"}},
 			{Fn: "H_two", Fuel: 30_000_000, Tier: "quick", Sched: true, Preempt: 2, Reach: []string{"end"}, NativeTwin: "N_reentrant"},
 			{Fn: "H_two_locals", Fuel: 30_000_000, Tier: "quick", Sched: true, Preempt: 2, Reach: []string{"end"}, NativeTwin: "N_reentrant"},
 			{Fn: "H_two_middleware", Fuel: 30_000_000, Tier: "quick", Sched: true, Preempt: 2, Reach: []string{"end"}, NativeTwin: "N_reentrant"},
